@@ -20,6 +20,11 @@
 (*   differs = TRUE and the model reads nothing stale : MISMATCH - a       *)
 (*        violation the cache model does not explain                       *)
 (* A "probe" event is evaluated on the current state without advancing it. *)
+(* An event may carry `obs`: what the FRESH font answered, in the model's  *)
+(* vocabulary (strike family: size and bit depth of the bitmap found;      *)
+(* pairs family: kerning per glyph).  It must be what the model's font     *)
+(* semantics gives (UNBOUND otherwise: the model does not describe the     *)
+(* font the harness built, or allsorts selects otherwise).                 *)
 (***************************************************************************)
 EXTENDS FontCache, Json, IOUtils, SequencesExt
 
@@ -45,6 +50,13 @@ TNext ==
              ELSE PrintT(<<"MISMATCH", ToJson([i |-> e.i, case |-> e.case, call |-> e.a])>>)
      ELSE LET r == Step(st, e.a.call) IN
           /\ st' = IF e.a.probe THEN st ELSE r.st
+          \* the fresh font's answer, where the harness reports it in the model's vocabulary, is the one the model's
+          \* font semantics gives (strike selection, first sub-table that handles a pair)
+          /\ IF "obs" \in DOMAIN e.o
+             THEN IF e.o.obs = ModelObs(st, e.a.call) THEN TRUE
+                  ELSE PrintT(<<"UNBOUND", ToJson([i |-> e.i, case |-> e.case, call |-> e.a.call, obs |-> e.o.obs,
+                                                   model |-> ModelObs(st, e.a.call)])>>)
+             ELSE TRUE
           /\ IF ~e.o.differs THEN TRUE
              ELSE IF r.stale # {}
                   THEN PrintT(<<"IMPURE", ToJson([i |-> e.i, case |-> e.case, call |-> e.a.call,
